@@ -1,16 +1,15 @@
-//! C09 -- contract of the float kernel inside compute_gregorian (used by the E2 obligation as a summary).
+//! C09 -- the IEEE-754 fact E2 relies on for the one real float division inside compute_gregorian.
 use super::oracle::*;
 use super::src::Src;
 
-harness!(c09_div_rem_contract, unwind = 2, |s| {
+harness!(c09_float_div_lemma, unwind = 2, |s| {
     let a = s.i32();
     s.assume(a >= -1_300_000_000 && a <= 1_300_000_000);
     let b = crate::DAYS_PER_YEAR_NLD;
-    // the constant must be an integer-valued number of days (what it is, is decided by the E2 obligation)
+    // what the constant is, is decided by the E2 obligation; the lemma is about an integer-valued divisor in 300..400
     s.assume(b >= 300.0 && b <= 400.0 && b == (b as i32) as f64);
     let bi = b as i32;
-    let (q, r) = crate::epoch::verif_div_rem_f64(a as f64, b);
-    v_assert!(s, q == a.div_euclid(bi), "quotient is the floor of a / b");
-    v_assert!(s, r == a.rem_euclid(bi) as f64, "remainder is a mod b (non-negative)");
+    let t = ((a as f64) / b).trunc();
+    v_assert!(s, t == (a / bi) as f64, "trunc(fl(a / b)) is the truncating integer quotient");
     v_cover!(a < 0 && a % 365 != 0, "negative non-multiple reachable");
 });
